@@ -651,6 +651,7 @@ def check(pid, tier, seed):
 
     stats_files = []
     budget_hit = False
+    step_info = {"max_steps": 0, "max_steps_per_byte": 0}
     # ---- stage 2: exhaustive enumeration block (if the property has one) -----------------------------
     enum_cases = 0
     if meta.get("enumerate") and not failures:
@@ -685,8 +686,11 @@ def check(pid, tier, seed):
                     known_crashes[k] = known_crashes.get(k, 0) + v
         for mf in glob.glob(os.path.join(workdir, "meta.*.json")):
             try:
-                if json.load(open(mf)).get("budget_hit"):
+                mj = json.load(open(mf))
+                if mj.get("budget_hit"):
                     budget_hit = True
+                step_info["max_steps"] = max(step_info["max_steps"], mj.get("max_steps", 0))
+                step_info["max_steps_per_byte"] = max(step_info["max_steps_per_byte"], mj.get("max_steps_per_byte", 0))
             except ValueError:
                 pass
 
@@ -778,7 +782,9 @@ def check(pid, tier, seed):
         "excluded_by_construction": tot["excluded"],
         "known_finding_hits": tot["known_hits"],
         "regression_inputs": reg_results,
-        "random_driver": {"workers": nworkers, "cases_per_worker": cases, "budget_hit": budget_hit},
+        "random_driver": {"workers": nworkers, "cases_per_worker": cases, "budget_hit": budget_hit,
+                          "max_instrumented_comparisons_per_case": step_info["max_steps"],
+                          "max_comparisons_per_input_byte": step_info["max_steps_per_byte"]},
         "generator_health": "weak: " + ", ".join(weak) if weak else "ok",
         "notes": notes,
     }
